@@ -46,6 +46,7 @@ func c20SharedPool(c *Ctx) {
 		root, inter, leaf *gx509.Certificate
 	}
 	var branches []branch
+	var wrongUsage []*gx509.Certificate
 	serial := int64(1)
 	for ri := 0; ri < nRoots; ri++ {
 		rk := newSM2Key(r)
@@ -73,10 +74,23 @@ func c20SharedPool(c *Ctx) {
 			}
 			inters.AddCert(inter)
 			branches = append(branches, branch{root, inter, leaf})
+			if ii == 0 {
+				wt := tmpl(fmt.Sprintf("client-only leaf %d", ri), serial, false)
+				serial++
+				wt.ExtKeyUsage = []gx509.ExtKeyUsage{gx509.ExtKeyUsageClientAuth}
+				if wl := mk(wt, inter, &lk.PublicKey, ik); wl != nil {
+					wrongUsage = append(wrongUsage, wl)
+				}
+			}
 		}
 	}
+	// ONE requested-usage list for every verification of the run (callers build their options once): a verifier only
+	// reads it. Next to the ordinary leaves, one leaf per root is restricted to client authentication and must be refused
+	// for this list every single time.
+	sharedUsages := []gx509.ExtKeyUsage{gx509.ExtKeyUsageServerAuth, gx509.ExtKeyUsageEmailProtection}
+	usagesBefore := append([]gx509.ExtKeyUsage{}, sharedUsages...)
 	opts := func() gx509.VerifyOptions {
-		return gx509.VerifyOptions{Roots: roots, Intermediates: inters, DNSName: "leaf.pool.example", CurrentTime: fixedNow, KeyUsages: []gx509.ExtKeyUsage{gx509.ExtKeyUsageAny}}
+		return gx509.VerifyOptions{Roots: roots, Intermediates: inters, DNSName: "leaf.pool.example", CurrentTime: fixedNow, KeyUsages: sharedUsages}
 	}
 	judge := func(b branch, chains [][]*gx509.Certificate, err error) string {
 		if err != nil {
@@ -114,6 +128,21 @@ func c20SharedPool(c *Ctx) {
 				rr := mon.NewRNG(uint64(G*1000 + g))
 				<-start
 				for i := 0; i < rounds*len(branches); i++ {
+					if len(wrongUsage) > 0 && i%4 == 3 {
+						wl := wrongUsage[rr.Intn(len(wrongUsage))]
+						var ch [][]*gx509.Certificate
+						var err error
+						if pi := mon.Guard(func() { ch, err = wl.Verify(opts()) }); pi != nil {
+							mu.Lock()
+							bad["panic in "+pi.Func+": "+pi.Value]++
+							mu.Unlock()
+						} else if err == nil && len(ch) > 0 {
+							mu.Lock()
+							bad["a leaf restricted to client authentication was accepted for [serverAuth, emailProtection]"]++
+							mu.Unlock()
+						}
+						continue
+					}
 					b := branches[rr.Intn(len(branches))]
 					var ch [][]*gx509.Certificate
 					var err error
@@ -140,6 +169,15 @@ func c20SharedPool(c *Ctx) {
 		rep.Count("shared_pool_verifications", int64(G*rounds*len(branches)))
 		rep.Eval(fmt.Sprintf("shared-pool/same-name-CAs/goroutines=%d", G))
 	}
+	if !reflectEqualUsages(sharedUsages, usagesBefore) {
+		rep.Violation("C20/shared-pool/callers-requested-usage-list-was-written-to", fmt.Sprintf("before %v after %v", usagesBefore, sharedUsages), nil)
+	}
+	for _, wl := range wrongUsage {
+		if ch, err := wl.Verify(opts()); err == nil && len(ch) > 0 {
+			rep.Violation("C20/shared-pool/wrong-usage-leaf-accepted-after-the-concurrent-phase", "", nil)
+			break
+		}
+	}
 	// the pools still answer sequentially as before
 	for bi, b := range branches {
 		ch, err := b.leaf.Verify(opts())
@@ -148,4 +186,16 @@ func c20SharedPool(c *Ctx) {
 			break
 		}
 	}
+}
+
+func reflectEqualUsages(a, b []gx509.ExtKeyUsage) bool {
+	if len(a) != len(b) {
+		return false
+	}
+	for i := range a {
+		if a[i] != b[i] {
+			return false
+		}
+	}
+	return true
 }
